@@ -80,18 +80,27 @@ def Block.split (b : Block) (span : Nat) : Option Block × Option Block :=
 
 /-! ### list cells -/
 
-/-- `self._array[x - self.addr_offset]` (read). -/
-def CBA.cell (a : CBA) (x : Nat) : M (Option Block) :=
-  if x < a.off then .error .negIndex
-  else match a.array[x - a.off]? with
+/-- `arr[x - off]` (read) on the raw list. -/
+def cellL (arr : List (Option Block)) (off x : Nat) : M (Option Block) :=
+  if x < off then .error .negIndex
+  else match arr[x - off]? with
     | some c => .ok c
     | none => .error .index
 
+/-- `arr[x - off] = v` on the raw list. -/
+def setCellL (arr : List (Option Block)) (off x : Nat) (v : Option Block) : M (List (Option Block)) :=
+  if x < off then .error .negIndex
+  else if x - off < arr.length then .ok (arr.set (x - off) v)
+  else .error .index
+
+/-- `self._array[x - self.addr_offset]` (read). -/
+def CBA.cell (a : CBA) (x : Nat) : M (Option Block) := cellL a.array a.off x
+
 /-- `self._array[x - self.addr_offset] = v`. -/
 def CBA.setCell (a : CBA) (x : Nat) (v : Option Block) : M CBA :=
-  if x < a.off then .error .negIndex
-  else if x - a.off < a.array.length then .ok { a with array := a.array.set (x - a.off) v }
-  else .error .index
+  match setCellL a.array a.off x v with
+  | .ok arr => .ok { a with array := arr }
+  | .error e => .error e
 
 /-! ### the `_freed` dict -/
 
@@ -231,6 +240,25 @@ def CBA.merge (a : CBA) (other block dying : Block) : M (CBA × Block) :=
     let f := if top > tmp.start then addFreed f tmp else f
     pure ({ a with top := top, freed := f }, tmp)
 
+/-- `block.used = False` (in place, i.e. in the array cell it was read from) and
+    `_add_to_freed(block)`. -/
+def CBA.markFree (a : CBA) (addr : Nat) (b0 : Block) : M (CBA × Block) := do
+  let block : Block := { b0 with used := false }
+  let a ← a.setCell addr (some block)
+  pure ({ a with freed := addFreed a.freed block }, block)
+
+/-- the `prev = self._find_previous(addr)` part of `free`. -/
+def CBA.mergePrev (a : CBA) (addr : Nat) (block : Block) : M (CBA × Block) := do
+  match ← a.findPrevious addr with
+  | some p => if !p.used then a.merge p block block else pure (a, block)
+  | none => pure (a, block)
+
+/-- the `next = self._find_next(block.start)` part of `free`. -/
+def CBA.mergeNext (a : CBA) (block : Block) : M CBA := do
+  match ← a.findNext block.start with
+  | some nx => if !nx.used then do let (a, _) ← a.merge nx block nx; pure a else pure a
+  | none => pure a
+
 /-- `free(addr)`; `none` = `free(None)`. -/
 def CBA.free (a : CBA) (addr : Option Nat) : M CBA :=
   match addr with
@@ -241,17 +269,9 @@ def CBA.free (a : CBA) (addr : Option Nat) : M CBA :=
     | some b0 =>
       if !b0.used then pure a
       else do
-        let block : Block := { b0 with used := false }     -- `block.used = False` (in place)
-        let a ← a.setCell addr (some block)
-        let a := { a with freed := addFreed a.freed block }
-        let prev ← a.findPrevious addr
-        let (a, block) ← match prev with
-          | some p => if !p.used then a.merge p block block else pure (a, block)
-          | none => pure (a, block)
-        let next ← a.findNext block.start
-        match next with
-        | some nx => if !nx.used then do let (a, _) ← a.merge nx block nx; pure a else pure a
-        | none => pure a
+        let (a, block) ← a.markFree addr b0
+        let (a, block) ← a.mergePrev addr block
+        a.mergeNext block
 
 /-- `ContiguousBlockAllocator(size, pos, addr_offset)`; `none` = `IndexError` (`pos ≥ size`). -/
 def CBA.init (size pos off : Nat) : Option CBA :=
